@@ -433,7 +433,10 @@ func parsePossibilityStageSet(input *input, possi *Possibility) error {
 			return errors.New("Oh no. Reached EOF before StageSet finished")
 		case '>':
 			input.Next()
-			possi.StageSets = append(possi.StageSets, stageSet)
+			if len(stageSet.Stages) > 0 {
+				/* "<>" restricts nothing and cannot be written back out */
+				possi.StageSets = append(possi.StageSets, stageSet)
+			}
 			return nil
 		}
 
